@@ -24,7 +24,7 @@ Lo(s, a) == CHOOSE m \in {s[k][a] : k \in 1..Len(s)} : \A k \in 1..Len(s) : m <=
 Hi(s, a) == CHOOSE m \in {s[k][a] : k \in 1..Len(s)} : \A k \in 1..Len(s) : m >= s[k][a]
 Origins(s) == {<<x, y, 0>> : x \in (Lo(s, 1) - Margin)..(Hi(s, 1) + Margin), y \in (Lo(s, 2) - Margin)..(Hi(s, 2) + Margin)}
 Thin(W) == {q \in W : (q[1] + 2 * q[2]) % Step = 0}
-Cases == UNION {{[m |-> "ray", op |-> "cast", pts |-> l, sc |-> sc, o |-> o, dirs |-> Dirs] : o \in Thin(Origins(l)), sc \in {0, 3}} : l \in Lines}
+Cases == UNION {{[m |-> "ray", op |-> "cast", pts |-> l, sc |-> sc, o |-> o, dirs |-> Dirs, nzd |-> (IF sc = 0 THEN 0 ELSE 1)] : o \in Thin(Origins(l)), sc \in {0, 3}} : l \in Lines}
 Init == case \in Cases
 Next == UNCHANGED case
 Spec == Init /\ [][Next]_case
